@@ -702,6 +702,13 @@ def call_opaque_method(interp, o, name, m, args, kwargs):
             r = wrap(f(*(list(o._pv_index) + terms)))
             if isinstance(r, SInt) and m.returns.lo is not None:
                 st.assume(r.t >= m.returns.lo)
+        elif o._pv_index and not args and m.returns is not None:
+            # result of a pure zero-argument method of an indexed object: a function of the index
+            key = ('__call__', name, ())
+            if key in o._pv_attrs:
+                return o._pv_attrs[key]
+            r = _indexed_scalar(interp, o, name + '()', m.returns)
+            o._pv_attrs[key] = r
         else:
             key = ('__call__', name, tuple(z3.simplify(to_z3(a)).sexpr() if isinstance(a, (Sym, int, str, bool))
                                             and not isinstance(a, (SOpt, SChoice, SList)) else id(a) for a in args))
